@@ -78,7 +78,7 @@ func digest(o tengo.Object) V {
 	case *tengo.Int, *tengo.Float, *tengo.Bool, *tengo.Char, *tengo.String, *tengo.Bytes, *tengo.Undefined:
 		return encodeValue(o)
 	case *tengo.UserFunction:
-		return V{"k": "hostfn"}
+		return V{"k": "userfunc"}
 	}
 	if _, isIt := o.(tengo.Iterator); isIt {
 		return V{"k": "iter"}
